@@ -172,22 +172,59 @@ def ownLongest (d : Delims) (own s : List Char) : Bool :=
     (!startsWith d.cs s || d.cs.length ≤ own.length) &&
     (d.ls.isEmpty || !startsWith d.ls s) && (d.lc.isEmpty || !startsWith d.lc s)
 
-/-- raw content: the block start does not occur before the closing tag -/
-def rawFree (d : Delims) (g : Tag) : Bool :=
-  match g.kind with
-  | .raw c _ _ => noStartInBs d c
-  | _ => true
-where
-  noStartInBs (d : Delims) : List Char → Bool
-    | [] => true
-    | c :: r => !startsWith d.bs (c :: r ++ d.bs) && noStartInBs d r
+/-- no block start begins inside raw content `c` that is followed by `following` -/
+def noBsIn (d : Delims) : List Char → List Char → Bool
+  | [], _ => true
+  | c :: r, following => !startsWith d.bs (c :: r ++ following) && noBsIn d r following
 
-/-- every text is free of start delimiters: the only start markers of the source are its tags -/
+/-- what follows the content of a raw block inside its tag -/
+def Tag.rawClose (d : Delims) (g : Tag) : List Char :=
+  match g.kind with
+  | .raw _ _ l2 => d.bs ++ l2.src ++ endrawBody ++ g.r.src ++ d.be
+  | _ => []
+
+/-- raw content: the block start does not occur before the closing tag -/
+def rawFree (d : Delims) (g : Tag) (following : List Char) : Bool :=
+  match g.kind with
+  | .raw c _ _ => noBsIn d c (g.rawClose d ++ following)
+  | _ => true
+
+/-- every text is free of start delimiters: the only start markers of the source are its tags
+    (`noStartIn` looks at the whole rest of the source, so delimiters that straddle a text and the
+    following tag count) -/
 def tailFree (d : Delims) : List Char → List (Tag × List Char) → Bool
   | t, [] => noStartIn d t []
   | t, (g, t') :: rest =>
-    noStartIn d t (g.src d) && ownLongest d (g.start d) (g.src d) && rawFree d g && tailFree d t' rest
+    noStartIn d t (unparseTail d ((g, t') :: rest)) &&
+      ownLongest d (g.start d) (unparseTail d ((g, t') :: rest)) &&
+      rawFree d g (t' ++ unparseTail d rest) && tailFree d t' rest
 
 def delimFree (d : Delims) (tm : Tmpl) : Bool := tailFree d tm.head tm.tail
+
+/-! ## well-formed delimiter sets (hypothesis of the general theorems) -/
+
+/-- first character of an end delimiter: cannot be taken for part of the tag interior or a marker -/
+def headOk : List Char → Bool
+  | [] => false
+  | c :: _ => !isAsciiWs c && !isIdentCont c && c != '-' && c != '+'
+
+/-- last character of an end delimiter is not whitespace -/
+def lastOk (e : List Char) : Bool :=
+  match e.reverse with
+  | [] => false
+  | c :: _ => !isWs c
+
+/-- first character of a start delimiter is not whitespace -/
+def startOk : List Char → Bool
+  | [] => false
+  | c :: _ => !isWs c
+
+/-- delimiter sets covered by the general theorems: no line prefixes, distinct non-empty start
+    delimiters that do not begin with whitespace, end delimiters that begin with a character that
+    is neither whitespace, an identifier character nor a marker and do not end in whitespace -/
+def goodDelims (d : Delims) : Bool :=
+  d.ls.isEmpty && d.lc.isEmpty && startOk d.vs && startOk d.bs && startOk d.cs &&
+    d.vs != d.bs && d.vs != d.cs && d.bs != d.cs &&
+    headOk d.ve && headOk d.be && headOk d.ce && lastOk d.ve && lastOk d.be && lastOk d.ce
 
 end MJ.Lexer
